@@ -26,6 +26,7 @@ import PGProofs.Conservation
 import PGProofs.MomentsThm
 import PGProofs.RewardsThm
 import PGProofs.SampleConsistency
+import PGProofs.ApiThm
 
 set_option linter.all false
 set_option pp.fieldNotation.generalized false
@@ -78,6 +79,15 @@ theorem pointwise_in_time : ∀ {ρ : Type u_1} [inst : Inhabited ρ] (raw : Lis
 /-- SFS covariance is symmetric -/
 theorem cov_symm : ∀ (n : ℕ) (idx : List ℕ) (x : ℕ → ℕ → ℚ) (mean : List ℚ) (i j : ℕ), i ≤ n → j ≤ n → covEntry n idx x mean i j = covEntry n idx x mean j i := @PG.covSFS_symm
 
+/-- CALL LAYER: accumulate(k, times, rewards, center, permute) either raises (exactly when the mirrored checks fire) or returns accumulateModel at each time on the first k rewards -/
+theorem call_layer_exact : ∀ {ρ : Type} (v : Api.Variant) (ctx : Api.DistCtx ρ) (k : ℤ) (rewards : Option (List ρ)) (ts : List ℚ) (center permute : Bool), Api.accumulateCall v ctx k rewards ts center permute = match Api.accErr v k (List.length (Api.resolveRewards ctx k rewards)) center (Api.negTimes ts) with | some e => Except.error e | none => Except.ok (List.map (Api.accAt ctx k (Api.resolveRewards ctx k rewards) center permute) ts) := @PG.Api.accumulateCall_eq
+
+/-- moment / accumulate / object-level end time are the same number -/
+theorem call_routes_agree : ∀ {ρ : Type} (v : Api.Variant), v ≠ Api.Variant.falsyTimes → ∀ (ctx : Api.DistCtx ρ) (c : Api.MomentCall ρ) (T : ℚ), Api.resolveTime v c.startTime ctx.startDefault ≤ 0 → Api.momentCall v ctx { k := c.k, rewards := c.rewards, startTime := c.startTime, endTime := some T, center := c.center, permute := c.permute } = Except.map (fun l ↦ List.getD l 0 0) (Api.accumulateCall v ctx c.k c.rewards [T] c.center c.permute) ∧ Api.momentCall v { defaultReward := ctx.defaultReward, startDefault := ctx.startDefault, tMax := T, raw := ctx.raw } { k := c.k, rewards := c.rewards, startTime := c.startTime, center := c.center, permute := c.permute } = Except.map (fun l ↦ List.getD l 0 0) (Api.accumulateCall v ctx c.k c.rewards [T] c.center c.permute) := @PG.Api.api_routes_agree
+
+/-- rewards=None means [self.reward]*k; None times mean the defaults -/
+theorem call_none_is_default : ∀ {ρ : Type} (v : Api.Variant) (ctx : Api.DistCtx ρ) (c : Api.MomentCall ρ), Api.momentCall v ctx { k := c.k, rewards := c.rewards, endTime := c.endTime, center := c.center, permute := c.permute } = Api.momentCall v ctx { k := c.k, rewards := c.rewards, startTime := some ctx.startDefault, endTime := c.endTime, center := c.center, permute := c.permute } ∧ Api.momentCall v ctx { k := c.k, rewards := c.rewards, startTime := c.startTime, center := c.center, permute := c.permute } = Api.momentCall v ctx { k := c.k, rewards := c.rewards, startTime := c.startTime, endTime := some ctx.tMax, center := c.center, permute := c.permute } ∧ Api.momentCall v ctx { k := c.k, startTime := c.startTime, endTime := c.endTime, center := c.center, permute := c.permute } = Api.momentCall v ctx { k := c.k, rewards := some (List.replicate (Int.toNat c.k) ctx.defaultReward), startTime := c.startTime, endTime := c.endTime, center := c.center, permute := c.permute } ∧ ∀ (ts : List ℚ), Api.accumulateCall v ctx c.k none ts c.center c.permute = Api.accumulateCall v ctx c.k (some (List.replicate (Int.toNat c.k) ctx.defaultReward)) ts c.center c.permute := @PG.Api.api_none_is_default
+
 end PG.C15
 
 #print axioms PG.C15.cov_routes_agree
@@ -95,3 +105,6 @@ end PG.C15
 #print axioms PG.C15.unit_neutral
 #print axioms PG.C15.pointwise_in_time
 #print axioms PG.C15.cov_symm
+#print axioms PG.C15.call_layer_exact
+#print axioms PG.C15.call_routes_agree
+#print axioms PG.C15.call_none_is_default
